@@ -235,6 +235,7 @@ def handleRt (toks impl : List String) : String :=
           match mEnc, utf8Decode (encB.length + 1) encB with
           | .ok m, some chars =>
             if m != chars then "CORR clause=lt.encode_model"
+            else if m.flatMap utf8Enc != encB then "CORR clause=lt.utf8_model"
             else if (match specEnc with | .ok e => e != m | _ => true) then "CORR clause=lt.gen_schema"
             else match mDec with
               | .ok d =>
